@@ -129,15 +129,15 @@ Print Assumptions C22_blacklist_positions_are_C31_core.
     some header [h] (fork gates, height and times of that moment), as an EventTx message or as a
     delayed transaction (EventAddDelayTx / a block's CommitDelayTx) re-submitted by a block; under
     the guards it was acceptable there *)
-Theorem C22_history_entries_admitted_partial : forall sc h0 ops st' lg,
+Theorem C22_history_entries_via_pipeline_partial : forall sc h0 ops st' lg,
   hrun sc (mkSt h0 [] []) ops = (st', lg) ->
   forall e, In e (st_pool st') ->
   exists h p s, e = s_outer s /\ In s (subs_of ops)
     /\ pipeline (view sc h) p (STx s) = (R_OK, p ++ [e])
     /\ (cfg_ok (view sc h) -> facts_consistent s = true ->
         g_fwd s && g_fee (view sc h) s && g_hdr s = true -> acceptable (view sc h) p s = true).
-Proof. exact history_entries_admitted. Qed.
-Print Assumptions C22_history_entries_admitted_partial.
+Proof. exact history_entries_via_pipeline. Qed.
+Print Assumptions C22_history_entries_via_pipeline_partial.
 
 (** no pool entry is expired for the next block of the CURRENT header, whatever blocks arrived in
     between (the sweep of EventAddBlock and the pipeline use the same rule at the same header);
